@@ -142,6 +142,20 @@ CHECKS = {
         technique='Coq proof (strip_spec, tagged_run_exact over all argv/modules) + extracted-model '
                   'correspondence with real subprocess runs',
         design='7 C19'),
+    'C18': dict(
+        text='Theorems over the model of rex_coverage / matrices2incremental_coverage for every table of examples, '
+             'frequencies and match bits: each coverage figure is the (repeat-counting or distinct) number of examples '
+             'the expression matches; the greedy incremental listing is non-increasing, lists no expression twice, '
+             'credits each example to exactly the first listed expression matching it, and sums to the number of '
+             'examples when every example is matched; n_examples is the sum of frequencies / number of distinct '
+             'examples. The extracted model is fed the real re.match table of each generated run and compared with '
+             'Extractor.coverage / incremental_coverage / full_incremental_coverage / n_examples; an independent '
+             'recount with re is the oracle.',
+        note='re.match on the returned expressions is an oracle table; extraction itself (which expressions are '
+             'returned) belongs to C03/C13.',
+        technique='Coq proof (accounting/credit invariants of the greedy loop by induction on fuel) + '
+                  'extracted-model correspondence fed with the real match table',
+        design='7 C18'),
 }
 
 NOT_YET = {}
